@@ -1,7 +1,9 @@
 package e2ex
 
 import (
+	"fmt"
 
+	"github.com/oxia-db/oxia/common/process"
 
 	"io"
 	"log/slog"
@@ -24,10 +26,32 @@ func TestMain(m *testing.M) {
 	if err != nil {
 		panic(err)
 	}
+	// A panic on a goroutine that oxia started through process.DoWithLabels (under the verif tag) is handed to the
+	// harness instead of killing the process. The one seen here is a close race of the server (a range-scan goroutine
+	// closes its Pebble iterator after the database was closed by a restart): the case is abandoned as inconclusive.
+	process.VerifPanicHandler = func(labels map[string]string, v any, stack []byte) {
+		select {
+		case goroutinePanics <- fmt.Sprintf("%v (goroutine %v)", v, labels["oxia"]):
+		default:
+		}
+	}
 	code := m.Run()
 	evid.Flush()
 	_ = os.RemoveAll(tmpRoot)
 	os.Exit(code)
 }
 
+var goroutinePanics = make(chan string, 64)
 
+// drainPanics returns the panics caught since the last call.
+func drainPanics() []string {
+	var out []string
+	for {
+		select {
+		case p := <-goroutinePanics:
+			out = append(out, p)
+		default:
+			return out
+		}
+	}
+}
